@@ -48,7 +48,10 @@ static bool gd_print(TickitTermDriver *ttd, const char *str, size_t len)
   while(i < len) {
     unsigned char b = (unsigned char)str[i];
     int n = b < 0x80 ? 1 : b < 0xe0 ? 2 : b < 0xf0 ? 3 : 4;
-    int cp = b < 0x80 ? b : 0x2500;     /* any non-ASCII glyph is a line glyph here */
+    int cp = b;
+    if(n == 2) cp = ((b & 0x1f) << 6) | (str[i+1] & 0x3f);
+    else if(n == 3) cp = ((b & 0x0f) << 12) | ((str[i+1] & 0x3f) << 6) | (str[i+2] & 0x3f);
+    else if(n == 4) cp = 0xfffd;
     if(g->line >= 0 && g->line < g->lines && g->col >= 0 && g->col < g->cols)
       g->cells[g->line * g->cols + g->col] = cp;
     g->col++;
@@ -375,18 +378,30 @@ static void bind_all(int id)
 static int term_lines(void) { int l, c; tickit_term_get_size(tt, &l, &c); return l; }
 static int term_cols(void)  { int l, c; tickit_term_get_size(tt, &l, &c); return c; }
 
+/* single-style line glyphs -> segment bits (1 north, 2 east, 4 south, 8 west) -> one character */
+static char line_char(int cp)
+{
+  static const int glyph[16] = { 0, 0x2575, 0x2576, 0x2514, 0x2577, 0x2502, 0x250c, 0x251c,
+                                 0x2574, 0x2518, 0x2500, 0x2534, 0x2510, 0x2524, 0x252c, 0x253c };
+  static const char *chars = "!\"#$%&'()*+,-{}";
+  for(int m = 1; m < 16; m++) if(glyph[m] == cp) return chars[m-1];
+  return '~';
+}
+
 static char cell_char(int line, int col)
 {
   int cp;
   if(tk == 'M') {
-    char buf[16] = { 0 };
-    size_t n = tickit_mockterm_get_display_text(mt, buf, sizeof buf - 1, line, col, 1);
-    cp = n == 0 ? 0 : (unsigned char)buf[0];
+    unsigned char buf[16] = { 0 };
+    size_t n = tickit_mockterm_get_display_text(mt, (char *)buf, sizeof buf - 1, line, col, 1);
+    cp = n == 0 ? 0 : buf[0];
+    if(n == 3) cp = ((buf[0] & 0x0f) << 12) | ((buf[1] & 0x3f) << 6) | (buf[2] & 0x3f);
+    else if(n >= 2) cp = 0xfffd;
   }
   else
     cp = gd->cells[line * gd->cols + col];
   if(cp == ' ') return '.';
-  if(cp >= 0x80) return '#';
+  if(cp >= 0x80) return line_char(cp);
   if(cp < 33 || cp > 126) return '~';
   return (char)cp;
 }
